@@ -27,7 +27,8 @@ static void check_conversions(int d, const std::vector<double>& c, long long idx
   if (mag > 0) distinct(hashvec(c, d));
   sample_every(idx, 997, J().str("kind", "vector->matrix->vector").i("d", d).arr("components", c).done());
   SU_vector v = mkvec(d, c);
-  double tol = 8 * d * ref::EPS * mag;
+  const double DENORM = 4.9406564584124654e-324;
+  double tol = 8 * d * ref::EPS * mag + 64 * d * DENORM;   // eps-relative accuracy is not attainable for subnormal magnitudes: absolute floor of a few subnormal ulps
   // vector -> matrix
   auto gm = v.GetGSLMatrix();
   Mat M = gsl2mat(gm.get()), want = B.tomat(c);
@@ -77,7 +78,7 @@ static void check_matrix_input(int d, const Mat& m, const char* kind, long long 
   GslMat g(m);
   SU_vector v(g.g);
   std::vector<double> got = comps(v);
-  double tol = 8 * d * ref::EPS * ref::maxabs(m);
+  double tol = 8 * d * ref::EPS * ref::maxabs(m) + 64 * d * 4.9406564584124654e-324;
   double e = maxdiff(got, want);
   sample_every(idx, 41, J().str("kind", std::string("matrix->vector ") + kind).i("d", d).arr("expected_components", want).done());
   if (ref::maxabs(m) > 0) maxstat("from_matrix_err/tol", e / tol);
@@ -115,10 +116,20 @@ static void check_ops(int d, const std::vector<double>& a, const std::vector<dou
     { SU_vector r = va * s; cmp("operator*(scalar)", r, w, 0); SU_vector r2 = s * va; cmp("scalar*vector", r2, w, 0); SU_vector r3 = va; r3 *= s; cmp("operator*=", r3, w, 0); }
     if (s != 0) { for (int k = 0; k < n; k++) w[k] = a[k] / s; SU_vector r = va; r /= s; cmp("operator/=", r, w, 2); }
   }
+  // the scalar may be one of the vector's own components (it is passed by value): v *= v[k], v /= v[k]
+  for (int k : {0, 1, n / 2, n - 1}) {
+    double s = a[k];
+    if (s == 0 || !std::isfinite(s)) continue;
+    for (int q = 0; q < n; q++) w[q] = a[q] * s;
+    { SU_vector r = va; r *= r[k]; cmp("operator*=(own-component)", r, w, 0); }
+    for (int q = 0; q < n; q++) w[q] = a[q] / s;
+    { SU_vector r = va; r /= r[k]; cmp("operator/=(own-component)", r, w, 2); }
+    { SU_vector r = va; SU_vector p = r * r[k]; for (int q = 0; q < n; q++) w[q] = a[q] * s; cmp("operator*(own-component)", p, w, 0); }
+  }
   if (with_matrix) {
     // the library's own matrix map is additive and homogeneous
     Mat Ma = gsl2mat(va.GetGSLMatrix().get()), Mb = gsl2mat(vb.GetGSLMatrix().get());
-    double tol = 16 * d * ref::EPS * (maxabs(a) + maxabs(b));
+    double tol = 16 * d * ref::EPS * (maxabs(a) + maxabs(b)) + 64 * d * 4.9406564584124654e-324;
     SU_vector s = va + vb, df = va - vb, sc = va * (-3.25);
     double e1 = ref::maxabs(gsl2mat(s.GetGSLMatrix().get()) - (Ma + Mb)), e2 = ref::maxabs(gsl2mat(df.GetGSLMatrix().get()) - (Ma - Mb)), e3 = ref::maxabs(gsl2mat(sc.GetGSLMatrix().get()) - cd(-3.25, 0) * Ma);
     if (!(e1 <= tol && e2 <= tol && e3 <= tol)) violation(dsig("matrix-map:not-linear", d), J().i("d", d).arr("a", a).arr("b", b).num("e_add", e1).num("e_sub", e2).num("e_scal", e3).done());
